@@ -1,0 +1,20 @@
+//go:build verif
+
+package signature
+
+// Machine-checked contracts (comment-only; compiled to nothing). Checked by /verif/bin/stfsvc.
+
+//@ func VerifyString
+//@   property C08
+//@   modifies *, hashInput
+//@   ensures [accept-implies-verified] signatureFormat != "" && err == nil ==> verifiedStr(signatureFormat, recipient, src)
+
+//@ func VerifyHeader
+//@   property C08
+//@   modifies *, hashInput, hdrVerified[hdr], hdrSubstituted[hdr]
+//@   ghostset hdrVerified[hdr] := err == nil
+//@   ensures [marks-verified] err == nil ==> hdrVerified[hdr]
+//@   ensures [needs-both-records] signatureFormat != "" && err == nil ==> old(hdr.PAXRecords) != nil && old(has(hdr.PAXRecords, "STFS.EmbeddedHeader")) && old(has(hdr.PAXRecords, "STFS.Signature"))
+//@   ensures [embedded-verified] signatureFormat != "" && err == nil ==> verifiedStr(signatureFormat, recipient, old(hdr.PAXRecords["STFS.EmbeddedHeader"]))
+//@   ensures [header-is-embedded] signatureFormat != "" && err == nil ==> hdr.Name == jsonStr(old(hdr.PAXRecords["STFS.EmbeddedHeader"]), "Name") && hdr.Linkname == jsonStr(old(hdr.PAXRecords["STFS.EmbeddedHeader"]), "Linkname") && hdr.Size == jsonInt(old(hdr.PAXRecords["STFS.EmbeddedHeader"]), "Size") && hdr.Mode == jsonInt(old(hdr.PAXRecords["STFS.EmbeddedHeader"]), "Mode") && hdr.Uid == jsonInt(old(hdr.PAXRecords["STFS.EmbeddedHeader"]), "Uid") && hdr.Gid == jsonInt(old(hdr.PAXRecords["STFS.EmbeddedHeader"]), "Gid") && hdr.Typeflag == jsonInt(old(hdr.PAXRecords["STFS.EmbeddedHeader"]), "Typeflag") && hdr.Uname == jsonStr(old(hdr.PAXRecords["STFS.EmbeddedHeader"]), "Uname") && hdr.Gname == jsonStr(old(hdr.PAXRecords["STFS.EmbeddedHeader"]), "Gname")
+//@   ensures [no-unsigned-records] signatureFormat != "" && err == nil ==> forall k string :: has(hdr.PAXRecords, k) ==> jsonHasPax(old(hdr.PAXRecords["STFS.EmbeddedHeader"]), k)
